@@ -23,7 +23,8 @@ RULE = ('cases = (status in unset/PASS/FAIL/SKIP) x (ending: pass, failing asser
 ASSUMPTIONS = [
     'the documented tables were transcribed by hand from `exactly help case spec` and `exactly --help`; '
     'sub-check manual_agrees compares the transcription with the help text of the tree under test',
-    'status=SKIP combined with a failing [conf] instruction is accepted as SKIPPED or VALIDATION_ERROR (manual silent)',
+    'status=SKIP combined with a failing [conf] instruction is accepted as SKIPPED or VALIDATION_ERROR (manual silent), '
+    'but the verdict must not depend on which of the two [conf] lines stands first',
 ]
 
 # ---- transcription of the manual -------------------------------------------
